@@ -50,7 +50,12 @@ def canon_cyto(elems):
 
 
 def _paths(ps):
-    return [[mask(str(c)) for c in p] for p in ps]
+    """paths in the order the API returned them.  The API sorts by printed names; when generated `subquery_<hash>` names
+    take part, the order they induce is part of what the property exempts, so such a list is put in the order of the MASKED names"""
+    out = [[mask(str(c)) for c in p] for p in ps]
+    if any("subquery_?" in c for p in out for c in p):
+        out.sort()
+    return out
 
 
 def _level_column():
@@ -84,7 +89,10 @@ def _printed(f):
     buf = io.StringIO()
     with contextlib.redirect_stdout(buf):
         f()
-    return mask(buf.getvalue())
+    out = mask(buf.getvalue())
+    if "subquery_?" in out:
+        out = "\n".join(sorted(out.split("\n")))
+    return out
 
 
 def classify_exception(e):
@@ -178,12 +186,80 @@ def dump_case(case):
             except Exception:
                 pass
             try:
+                from sqllineage.core.models import Column, SubQuery
+                names = {}
+                for n in lr._sql_holder.graph.nodes:
+                    if isinstance(n, Column):
+                        for p in n._parent:
+                            if isinstance(p, SubQuery):
+                                names.setdefault(p, set()).add(mask(str(p)))
+                # subquery texts that own columns under more than one alias (class predicate of D27), a count
+                meta["multi_alias_owners"] = sum(1 for v in names.values() if len(v) > 1)
+            except BaseException:   # noqa
+                pass
+            try:
                 raw = [lr.to_cytoscape(), lr.to_cytoscape(_level_column())]
                 meta["raw_export"] = hashlib.sha1(mask(_cj(raw)).encode()).hexdigest()[:12]
             except BaseException:   # noqa
                 pass
             d["_meta"] = meta
             return d
+
+
+def mutating_provider(md):
+    """a dict provider whose answers change from one evaluation (session) to the next: every `session()` starts a new epoch and
+    every table gains a column named after the epoch.  Within one evaluation its answers are constant."""
+    from sqllineage.core.metadata.dummy import DummyMetaDataProvider
+
+    class Mutating(DummyMetaDataProvider):
+        def __init__(self, metadata):
+            super().__init__(metadata)
+            self.epoch = 0
+
+        def session(self):
+            self.epoch += 1
+            return super().session()
+
+        def _get_table_columns(self, schema, table, **kwargs):
+            cols = super()._get_table_columns(schema, table, **kwargs)
+            return list(cols) + [f"epoch{self.epoch}"] if cols else cols
+
+    return Mutating(md)
+
+
+def orders_case(case, orders):
+    """accessor-order part: answers of the accessors called in each of `orders` on FRESH runners; then on ONE runner the first
+    order, the last order and the first again; with metadata also on one runner backed by a provider that changes between
+    evaluations.  `_eval` is counted by a wrapper placed on the class from here (no change to the repository)."""
+    from sqllineage.runner import LineageRunner
+    orig = LineageRunner._eval
+
+    def counted(self):
+        self.__dict__["_c11_evals"] = self.__dict__.get("_c11_evals", 0) + 1      # on the instance: ids are reused
+        return orig(self)
+
+    def evals(lr):
+        return lr.__dict__.get("_c11_evals", 0)
+
+    LineageRunner._eval = counted
+    try:
+        with warnings.catch_warnings():
+            warnings.simplefilter("ignore")
+            with configured(case):
+                fresh = []
+                for o in orders:
+                    lr = make_runner(case)
+                    fresh.append({"answers": call_accessors(lr, o), "evals": evals(lr)})
+                lr = make_runner(case)
+                same = [call_accessors(lr, orders[0]), call_accessors(lr, orders[-1]), call_accessors(lr, orders[0])]
+                out = {"fresh": fresh, "same": same, "same_evals": evals(lr)}
+                if case.get("metadata"):
+                    lr = make_runner(case, provider=mutating_provider(case["metadata"]))
+                    out["mutating"] = [call_accessors(lr, orders[0]), call_accessors(lr, orders[-1])]
+                    out["mutating_evals"] = evals(lr)
+                return out
+    finally:
+        LineageRunner._eval = orig
 
 
 def main(argv):
@@ -197,7 +273,7 @@ def main(argv):
         return 0
     with open(argv[0], encoding="utf-8") as f:
         cases = json.load(f)
-    out = [dump_case(c) for c in cases]
+    out = [orders_case(c, c["orders"]) if "orders" in c else dump_case(c) for c in cases]
     with open(argv[1], "w", encoding="utf-8") as f:
         json.dump({"hashseed": os.environ.get("PYTHONHASHSEED"), "dumps": out}, f)
     return 0
